@@ -149,7 +149,7 @@ func runC12(c *Ctx) {
 		sort.Strings(dl)
 		for _, d := range dl {
 			for _, e := range extVariants {
-				for _, m := range []string{"issue", "value-before-issue", "value-after-issue", "issue,op-before", "issue,op-after", "value-before-issue,op-between"} {
+				for _, m := range []string{"issue", "value-before-issue", "value-after-issue", "issue,op-before", "issue,op-after", "value-before-issue,op-between", "value-only"} {
 					points = append(points, c12point{j.reg.Country, j.cat.Code, j.rate.Key, d, e, m})
 				}
 			}
@@ -236,6 +236,9 @@ func runC12(c *Ctx) {
 			op = shiftDate(p.Date, 400)
 		case "value-before-issue,op-between":
 			issue, value, op = shiftDate(p.Date, 400), p.Date, shiftDate(p.Date, 200)
+		case "value-only":
+			// no issue date at all (it defaults to today): the value date still decides
+			issue, value = "", p.Date
 		}
 		combo := map[string]any{"cat": p.Cat, "rate": p.Rate}
 		if len(p.Ext) > 0 {
@@ -254,6 +257,9 @@ func runC12(c *Ctx) {
 		}
 		if value != "" {
 			inv["value_date"] = value
+		}
+		if issue == "" {
+			delete(inv, "issue_date")
 		}
 		if op != "" {
 			inv["op_date"] = op
@@ -307,6 +313,7 @@ func runC12(c *Ctx) {
 		}
 	})
 	c.R.Exhaustive(true)
+	c.Require("path_invoice", "path_RateDef.Value", "boundary_points", "before_first_value_points")
 }
 
 func boundaryClass(rate *defs.Rate, date string) string {
